@@ -499,6 +499,10 @@ func exhaustiveC17(thorough bool, emit func(C17Case) bool) {
 	}
 }
 
-func TestC17(t *testing.T) {
-	Run(t, Prop[C17Case]{ID: "C17", Gen: genC17, Exhaustive: exhaustiveC17, Check: checkC17})
+func propC17() Prop[C17Case] {
+	return Prop[C17Case]{ID: "C17", Gen: genC17, Exhaustive: exhaustiveC17, Check: checkC17}
 }
+
+func TestC17(t *testing.T) { Run(t, propC17()) }
+
+func FuzzGenC17(f *testing.F) { RunFuzz(f, propC17()) }
